@@ -14,6 +14,7 @@
 #include <fcppt/optional/make_if.hpp>
 #include <fcppt/optional/object_impl.hpp>
 #include <fcppt/config/external_begin.hpp>
+#include <cstdint>
 #include <type_traits>
 #include <fcppt/config/external_end.hpp>
 
@@ -43,7 +44,8 @@ template <
 fcppt::optional::object<Enum> from_int(Value const &_value) noexcept
 {
   return fcppt::optional::make_if(
-      fcppt::cast::size<fcppt::enum_::size_type<Enum>>(_value) < fcppt::enum_::size<Enum>::value,
+      fcppt::cast::size<std::uintmax_t>(_value) <
+          fcppt::cast::size<std::uintmax_t>(fcppt::enum_::size<Enum>::value),
       [&_value] { return fcppt::cast::int_to_enum<Enum>(_value); });
 }
 }
